@@ -6,13 +6,27 @@ import ast
 
 from ..astutil import call_name
 from ..core import Report, norm
-from ..effects import TAPE_SPEC, Engine, T
+from ..effects import CT, TAPE_SPEC, Engine, T
 from ..index import FuncInfo
 
 QS = "pennylane/core/qscript.py"
 PURE_TAPE_API = ("copy", "__copy__", "bind_new_parameters", "map_to_standard_wires", "adjoint", "get_parameters",
                  "get_operation", "hash", "_flatten", "__iter__", "__getitem__", "__len__", "circuit", "observables",
                  "diagonalizing_gates", "op_wires", "wires", "par_info", "graph", "specs", "draw", "_get_standard_wire_map")
+
+
+# tape-application plumbing of the transform machinery: (module, function, parameter, tag)
+PLUMBING = (
+    ("pennylane/core/transforms/transform.py", "_apply_to_tape", "obj", "T"),
+    ("pennylane/core/transforms/transform.py", "_apply_to_sequence", "obj", "CT"),
+    ("pennylane/core/transforms/compile_pipeline.py", "CompilePipeline.__call_tapes", "tapes", "CT"),
+)
+# named accepted sites (rule, function, normalised statement) -> reason; confirmed by reading and by a run-time probe
+ACCEPTED = {
+    ("CompilePipeline.__call_tapes", "tape.trainable_params = argnums[tape_idx]"):
+        "argnums come only from the cotransform cache of a QNode-bound pipeline; the tapes it receives are constructed by the workflow for "
+        "that very call (probed: pipelines handed to users carry no cache, and set_classical_component on a foreign pipeline raises before the store)",
+}
 
 
 def _is_transform_ref(ix, module, e):
@@ -109,6 +123,25 @@ def check(ctx):
             rep.refuted("R-C18-effect", QS, f.qualname, s.node,
                         f"QuantumScript.{name} is documented as non-mutating but {s.why}", line=s.line, kind=s.kind)
     rep.floor("non-mutating QuantumScript methods analysed", n_api, 15)
+    # the machinery that applies transforms to tapes / batches
+    n_pl = 0
+    for rel, qual, pname, tag in PLUMBING:
+        f = ix.func(rel, qual)
+        n_pl += 1
+        rep.analysed(rel, qual)
+        res = eng.analyse(f, {pname: {T if tag == "T" else CT}})
+        live = []
+        for s in res.sinks:
+            reason = ACCEPTED.get((qual, norm(s.node)))
+            if reason:
+                rep.exempt("R-C18-effect", f"{rel}:{qual} `{norm(s.node)}`", reason)
+            else:
+                live.append(s)
+        if not live:
+            rep.proved("R-C18-effect", f"{rel}:{qual}", "transform application plumbing does not write to the tapes it is given")
+        for s in live:
+            rep.refuted("R-C18-effect", rel, qual, s.node, f"the transform-application machinery {s.why}", line=s.line)
+    rep.floor("transform-application plumbing functions", n_pl, 3)
     rep.extra["engine"] = dict(eng.stats, call_depth=depth, functions_summarised=len(eng.functions_seen))
     rep.floor("functions analysed or summarised by E2", len(eng.functions_seen), 150)
     return rep
